@@ -1,7 +1,7 @@
 (* props/C09.v -- merging never forgets a result.
    Statements: model/KeepSpec.v; proofs: proofs/KeepProofs.v. *)
 From Aqua Require Import Base Json Air Trace Handler Values Scalars Lens Exec RunExec ExecCases KeepSpec.
-From Aqua Require Import ExecStreams KeepProofs KeepHandler KeepExec.
+From Aqua Require Import ExecStreams KeepProofs KeepHandler KeepExec KeepStreams.
 Open Scope N_scope.
 Open Scope list_scope.
 
@@ -15,6 +15,15 @@ Definition C09_full : Prop := KeepSpec.C09_full.
    current data, for every run that returns new data, for every stage-2 hook that only grows the stores *)
 Theorem C09_stores : C09_stores_stmt.
 Proof. exact stores_kept. Qed.
+
+(* ... in particular for the stage-2/3 executor (streams, canon, maps): its instructions and the farewell
+   compactification only grow the stores, so the statement holds for run2, the model of the lock-step *)
+Theorem C09_stores_stream_hook : hook_keeps cids_grow stream_instr.
+Proof. exact stream_instr_grows. Qed.
+Theorem C09_stores_run2 : forall fuel i code d next reqs signed,
+  run2 fuel i = OutNewData code d next reqs signed ->
+  cid_state_incl (d_cids (ri_prev i)) (d_cids d) /\ cid_state_incl (d_cids (ri_cur i)) (d_cids d).
+Proof. exact stores_kept_run2. Qed.
 
 (* C09_state_keep: the merged state is an upper bound of both sides in the information order; an
    Executed / Failed / CanonExecuted result present on either side comes back with the same content id *)
@@ -121,3 +130,5 @@ Print Assumptions C09_exec_driven.
 Print Assumptions C09_consumed_partial.
 Print Assumptions C09_compactification_keeps.
 Print Assumptions C09_stage1_hook.
+Print Assumptions C09_stores_stream_hook.
+Print Assumptions C09_stores_run2.
